@@ -18,9 +18,13 @@ property statement.
 * `parent_eq_spec`, `parent_default_eq_spec`, `parent_zero_eq_spec`, `parent_refuses_above_root` —
   `parent(n)` is the address with `n` references dropped; more levels than the depth is refused.
 * `name_eq_spec` — the last reference of the address.
-* `unique_distinct_scalar_partial`, `distinct_groups_partial` — see the comments: the full
-  `unique`/`distinct` = "value occurs once" / "first of each equality class" statement over lists
-  is not proved in this round (what is missing is stated there).
+* `scanOrder_same_kind_max/min`, `max_same_kind_eq_spec`, `min_same_kind_eq_spec` — the order
+  hypothesis is discharged for every same-kind collection (ints, floats, Booleans, non-literal text).
+* `members_of_aoh`, `members_of_map` — the members of an Array-of-Hashes / hash of hashes.
+* `unique_eq_spec`, `distinct_eq_spec` — `unique` = the members whose value occurs once (inverted:
+  more than once), `distinct` = the first member of each group of equal values, for lists,
+  Arrays-of-Hashes and hashes of hashes of any length (`groups_eq_spec`: the table the code builds;
+  `groups_of_list`: a list of scalars is always grouped); `unique_distinct_non_complex`.
 -/
 namespace Ypv.C13
 open Ypv
@@ -120,22 +124,6 @@ def intLe : Scalar → Scalar → Bool
 
 def intGe (x y : Scalar) : Bool := intLe y x
 
-theorem gt_int (i j : Int) : searchMatchesScalar noRx .gt (.int i) (.int j) = .ok (!decide (i ≤ j)) := by
-  have : (compare i j == Ordering.gt) = !decide (i ≤ j) := by
-    rw [Bool.eq_iff_iff]; simp [Int.compare_eq_gt]
-  simp [searchMatchesScalar, searchTyped, typedOfScalar, orderLadder, Typed.ordNum?, decCmp, this]
-
-theorem lt_int (i j : Int) : searchMatchesScalar noRx .lt (.int i) (.int j) = .ok (!decide (j ≤ i)) := by
-  have : (compare i j == Ordering.lt) = !decide (j ≤ i) := by
-    rw [Bool.eq_iff_iff]; simp [Int.compare_eq_lt]
-  simp [searchMatchesScalar, searchTyped, typedOfScalar, orderLadder, Typed.ordNum?, decCmp, this]
-
-theorem eq_int (i j : Int) :
-    searchMatchesScalar noRx .equals (.int i) (.int j) = .ok (decide (i ≤ j) && decide (j ≤ i)) := by
-  have : (i == j) = (decide (i ≤ j) && decide (j ≤ i)) := by
-    rw [Bool.eq_iff_iff]; simp; omega
-  simp [searchMatchesScalar, searchTyped, typedOfScalar, this]
-
 /-- Lists of ints meet the hypothesis of `max_eq_spec` with the usual order. -/
 theorem scanOrder_ints_max (vals : List Scalar) (h : ∀ v ∈ vals, ∃ i, v = .int i) :
     ScanOrder .gt intLe vals := by
@@ -170,6 +158,35 @@ theorem scanOrder_ints_min (vals : List Scalar) (h : ∀ v ∈ vals, ∃ i, v = 
     obtain ⟨i, rfl⟩ := h x hx; obtain ⟨j, rfl⟩ := h b hb
     simp [eq_int, intGe, intLe, Bool.and_comm]
 
+/-- Collections of one kind — all ints, all floats (exact decimals, `decCmp`), all Booleans, or all
+non-literal text (`strLe`, by code point) — meet the order hypothesis of `max_eq_spec` with the one
+order `valLe` (`Lemmas/Keyword.lean`): `decCmp` and `strLe` are total and transitive and the loop's
+two comparisons decide them. -/
+theorem scanOrder_same_kind_max (vals : List Scalar) (h : SameKind vals) : ScanOrder .gt valLe vals :=
+  scanOrder_max_of_sameKind h
+
+/-- … and of `min_eq_spec` with the reversed order `valGe`. -/
+theorem scanOrder_same_kind_min (vals : List Scalar) (h : SameKind vals) : ScanOrder .lt valGe vals :=
+  scanOrder_min_of_sameKind h
+
+/-- **C13 max on every same-kind collection** (no order hypothesis left): the members whose value is
+`≥` every comparable member's, in document order; inverted: a permutation of exactly the others. -/
+theorem max_same_kind_eq_spec (data : Node) (a : Addr) (inv : Bool) (raw : Str)
+    (ps : List Str) (cs : List Cand) (hsplit : splitParams raw = .ok ps) (hps : ps.length ≤ 1)
+    (hc : mmCands data a ps.head? = .ok (some cs)) (hk : SameKind (candVals cs)) :
+    ∃ out, kwSearch data a inv .max raw = .ok (.nodes out) ∧
+      (inv = false → out = Spec.extremes valLe cs) ∧ (inv = true → List.Perm out (Spec.others valLe cs)) :=
+  max_eq_spec valLe data a inv raw ps cs hsplit hps hc (scanOrder_max_of_sameKind hk)
+
+/-- **C13 min on every same-kind collection**: the members whose value is `≤` every comparable
+member's (`valGe x y` = "`y ≤ x`"), in document order; inverted: a permutation of the others. -/
+theorem min_same_kind_eq_spec (data : Node) (a : Addr) (inv : Bool) (raw : Str)
+    (ps : List Str) (cs : List Cand) (hsplit : splitParams raw = .ok ps) (hps : ps.length ≤ 1)
+    (hc : mmCands data a ps.head? = .ok (some cs)) (hk : SameKind (candVals cs)) :
+    ∃ out, kwSearch data a inv .min raw = .ok (.nodes out) ∧
+      (inv = false → out = Spec.extremes valGe cs) ∧ (inv = true → List.Perm out (Spec.others valGe cs)) :=
+  min_eq_spec valGe data a inv raw ps cs hsplit hps hc (scanOrder_min_of_sameKind hk)
+
 /-- The members of a plain list are its positions; a null is not comparable, a scalar is its value. -/
 theorem members_of_list (a : Addr) : ∀ (items : List Node) (i : Nat),
     (∀ n ∈ items, n.isScalar = true) →
@@ -187,6 +204,87 @@ theorem members_of_list (a : Addr) : ∀ (items : List Node) (i : Nat),
     | seq _ _ => simp [Node.isScalar] at hn
     | map _ _ => simp [Node.isScalar] at hn
     | set _ _ => simp [Node.isScalar] at hn
+
+/-- The comparable value of a member under the attribute `name`: the attribute's non-null scalar
+value; a member that is no hash, lacks the attribute or holds a null there is not comparable. -/
+def Spec.memberValue (name : Str) (n : Node) : Option Scalar :=
+  match n with
+  | .map _ es =>
+    match attrOf es name with
+    | some (.scalar _ .null) => none
+    | some (.scalar _ v) => some v
+    | _ => none
+  | _ => none
+
+/-- Every attribute `name` held by a member hash is a scalar (containers there are out of model). -/
+def AttrScalar (name : Str) (n : Node) : Prop :=
+  ∀ anc es x, n = .map anc es → attrOf es name = some x → x.isScalar = true
+
+/-- The members of an Array-of-Hashes under `max(name)`/`min(name)` are its positions; the
+comparable value of a member is its non-null scalar attribute. -/
+theorem members_of_aoh (name : Str) (a : Addr) : ∀ (items : List Node) (i : Nat),
+    (∀ n ∈ items, AttrScalar name n) →
+    candsAoh name a items i = .ok ((items.zipIdx i).map (fun (n, j) => (a ++ [.idx j], Spec.memberValue name n)))
+  | [], _, _ => rfl
+  | n :: rest, i, h => by
+    have ih := members_of_aoh name a rest (i + 1) (fun n' hn' => h n' (by simp [hn']))
+    have hn := h n (by simp)
+    cases n with
+    | map anc es =>
+      unfold candsAoh
+      simp only []
+      rw [ih]
+      cases ha : attrOf es name with
+      | none => simp [Spec.memberValue, ha, List.zipIdx_cons]
+      | some x =>
+        have := hn anc es x rfl ha
+        cases x with
+        | scalar _ v => cases v <;> simp [Spec.memberValue, ha, comparable, List.zipIdx_cons]
+        | seq _ _ => simp [Node.isScalar] at this
+        | map _ _ => simp [Node.isScalar] at this
+        | set _ _ => simp [Node.isScalar] at this
+    | scalar _ _ => unfold candsAoh; simp only []; rw [ih]; simp [Spec.memberValue, List.zipIdx_cons]
+    | seq _ _ => unfold candsAoh; simp only []; rw [ih]; simp [Spec.memberValue, List.zipIdx_cons]
+    | set _ _ => unfold candsAoh; simp only []; rw [ih]; simp [Spec.memberValue, List.zipIdx_cons]
+
+/-- The members of a hash of hashes are its keys, in order.  A child that is not a hash is not
+comparable — unless the parameter names a key of the parent itself (`inData`), which the code
+refuses with a YAML Path error (excluded here by `hkids`). -/
+theorem members_of_map (name : Str) (inData : Bool) (a : Addr) : ∀ (es : List (Key × Node)),
+    (∀ kn ∈ es, AttrScalar name kn.2) → (inData = true → ∀ kn ∈ es, kn.2.isMap = true) →
+    candsMap name inData a es = .ok (es.map (fun (k, n) => (a ++ [.key k], Spec.memberValue name n)))
+  | [], _, _ => rfl
+  | (k, n) :: rest, h, hkids => by
+    have ih := members_of_map name inData a rest (fun kn hkn => h kn (by simp [hkn]))
+      (fun hi kn hkn => hkids hi kn (by simp [hkn]))
+    have hn := h (k, n) (by simp)
+    have hk := fun hi => hkids hi (k, n) (by simp)
+    cases n with
+    | map anc es' =>
+      unfold candsMap
+      simp only []
+      rw [ih]
+      cases ha : attrOf es' name with
+      | none => simp [Spec.memberValue, ha]
+      | some x =>
+        have := hn anc es' x rfl ha
+        cases x with
+        | scalar _ v => cases v <;> simp [Spec.memberValue, ha, comparable]
+        | seq _ _ => simp [Node.isScalar] at this
+        | map _ _ => simp [Node.isScalar] at this
+        | set _ _ => simp [Node.isScalar] at this
+    | scalar _ _ =>
+      cases inData
+      · unfold candsMap; simp only []; rw [ih]; simp [Spec.memberValue]
+      · simp [Node.isMap] at hk
+    | seq _ _ =>
+      cases inData
+      · unfold candsMap; simp only []; rw [ih]; simp [Spec.memberValue]
+      · simp [Node.isMap] at hk
+    | set _ _ =>
+      cases inData
+      · unfold candsMap; simp only []; rw [ih]; simp [Spec.memberValue]
+      · simp [Node.isMap] at hk
 
 /-! ## has_child -/
 
@@ -273,32 +371,127 @@ theorem name_eq_spec (a : Addr) : kwName a false [] = .ok (.name a.getLast?) := 
 
 /-! ## unique / distinct
 
-Full statement (not proved in this round):
-`unique_eq_spec : kwUnique (.seq anc items) a inv [] = .ok (.nodes (positions whose value occurs
-exactly once (inverted: more than once) among the items under Python ==))` and
-`distinct_eq_spec : … = positions of the first member of each ==-class`, for lists, Array-of-Hashes
-and hashes of hashes of any length.  Missing: the invariant of `groupInsert` (keys pairwise
-non-equal, each group = the members equal to its key, in order), which needs `pyEq` to be an
-equivalence on the member values (transitivity of `decCmp` across int/float/bool).  What is proved:
-the non-complex case and the group-insertion step. -/
+The members are the positions (keys) holding a value: every scalar of a plain list, every hash of an
+Array-of-Hashes / hash of hashes that has the attribute (`Spec.keyed`).  Equality of values is
+Python's `==` (`pyEq`: `True == 1 == 1.0`), proved an equivalence relation (`pyEq_refl`,
+`pyEq_symm`, `pyEq_trans` in `Lemmas/Keyword.lean`, from `decCmp` being the comparison of the
+denoted decimals). -/
+
+/-- The members `unique`/`distinct` group, with their values, in document order. -/
+def Spec.keyed (data : Node) (a : Addr) (scan : Option Str) : List Keyed :=
+  match data, scan with
+  | .seq _ items, none => keyedList a items 0
+  | .seq _ items, some name => keyedAoh name a items 0
+  | .map _ es, some name => keyedMap name a es
+  | _, _ => []
+
+/-- The members whose value occurs exactly once, in document order. -/
+def Spec.occurringOnce (ms : List Keyed) : List Addr :=
+  (ms.filter (fun m => occurrences ms m.2 == 1)).map (·.1)
+
+/-- The members whose value occurs more than once, in document order. -/
+def Spec.occurringMore (ms : List Keyed) : List Addr :=
+  (ms.filter (fun m => decide (1 < occurrences ms m.2))).map (·.1)
+
+/-- The first member of each group of equal values: the members no predecessor of which has an
+equal value, in document order. -/
+def Spec.firstOfEach (ms : List Keyed) : List Addr := firstsFrom [] ms
+
+/-- The table `seen_values` the code builds over a collection is the insertion of its members in
+document order. -/
+theorem groups_eq_spec (data : Node) (a : Addr) (scan : Option Str) (g : Groups)
+    (h : kwGroups data a scan = .ok (some g)) : g = groupsOf [] (Spec.keyed data a scan) := by
+  unfold kwGroups at h
+  cases data with
+  | scalar _ _ => simp at h
+  | set _ _ => simp at h
+  | map anc es =>
+    cases scan with
+    | none => simp at h
+    | some name =>
+      simp only [] at h
+      cases hg : groupMap name (attrOf es name).isSome a [] es with
+      | error e => simp [hg, Except.map] at h
+      | ok g' =>
+        simp only [hg, Except.map, Except.ok.injEq, Option.some.injEq] at h
+        subst h
+        exact groupMap_eq name _ a es [] g' hg
+  | seq anc items =>
+    simp only [] at h
+    cases scan with
+    | none =>
+      cases hA : isAoh true items
+      · simp only [hA, Bool.false_eq_true, if_false] at h
+        cases hg : groupList a [] items 0 with
+        | error e => simp [hg, Except.map] at h
+        | ok g' =>
+          simp only [hg, Except.map, Except.ok.injEq, Option.some.injEq] at h
+          subst h
+          exact groupList_eq a items 0 [] g' hg
+      · simp [hA] at h
+    | some name =>
+      cases hA : isAoh true items
+      · simp [hA] at h
+      · simp only [hA, if_true] at h
+        cases hg : groupAoh name a [] items 0 with
+        | error e => simp [hg, Except.map] at h
+        | ok g' =>
+          simp only [hg, Except.map, Except.ok.injEq, Option.some.injEq] at h
+          subst h
+          exact groupAoh_eq name a items 0 [] g' hg
+
+/-- A plain list of scalars (not all of them null) is grouped without error. -/
+theorem groups_of_list (anc : Option Str) (items : List Node) (a : Addr)
+    (hs : ∀ n ∈ items, n.isScalar = true) (hA : isAoh true items = false) :
+    kwGroups (.seq anc items) a none = .ok (some (groupsOf [] (keyedList a items 0))) := by
+  simp [kwGroups, hA, groupList_scalars a items 0 [] hs, Except.map]
+
+/-- **C13 unique**: on any collection that the code can group (`hg`: no unhashable member, the
+parameter fits the shape), `unique` returns exactly the members whose value occurs once, in
+document order, and inverted exactly those whose value occurs more than once (a permutation of
+them: the code yields them group by group). -/
+theorem unique_eq_spec (data : Node) (a : Addr) (inv : Bool) (raw : Str) (ps : List Str) (g : Groups)
+    (hsplit : splitParams raw = .ok ps) (hps : ps.length ≤ 1)
+    (hg : kwGroups data a ps.head? = .ok (some g)) :
+    ∃ out, kwSearch data a inv .unique raw = .ok (.nodes out) ∧
+      (inv = false → out = Spec.occurringOnce (Spec.keyed data a ps.head?)) ∧
+      (inv = true → List.Perm out (Spec.occurringMore (Spec.keyed data a ps.head?))) := by
+  have hge := groups_eq_spec data a ps.head? g hg
+  unfold kwSearch; rw [hsplit]
+  unfold kwUnique
+  have : ¬ ps.length > 1 := by omega
+  simp only [this, if_false, hg]
+  cases inv
+  · refine ⟨_, rfl, fun _ => ?_, fun h => (by cases h)⟩
+    have := groupSel_once _ (Spec.keyed data a ps.head?) (Nat.le_refl _)
+    rw [← hge] at this
+    unfold Spec.occurringOnce
+    rw [← this]
+    simp only [groupSel, if_false, Bool.false_eq_true]
+    congr 2
+  · refine ⟨_, rfl, fun h => (by cases h), fun _ => ?_⟩
+    have := groupSel_perm (fun k => decide (1 < k)) _ (Spec.keyed data a ps.head?) (Nat.le_refl _)
+    rw [← hge] at this
+    unfold Spec.occurringMore
+    simpa [groupSel] using this
+
+/-- **C13 distinct**: on any collection that the code can group, `distinct` returns exactly the first
+member of each group of equal values, in document order. -/
+theorem distinct_eq_spec (data : Node) (a : Addr) (raw : Str) (ps : List Str) (g : Groups)
+    (hsplit : splitParams raw = .ok ps) (hps : ps.length ≤ 1)
+    (hg : kwGroups data a ps.head? = .ok (some g)) :
+    kwSearch data a false .distinct raw = .ok (.nodes (Spec.firstOfEach (Spec.keyed data a ps.head?))) := by
+  have hge := groups_eq_spec data a ps.head? g hg
+  unfold kwSearch; rw [hsplit]
+  unfold kwDistinct
+  have : ¬ ps.length > 1 := by omega
+  simp only [this, if_false, hg, Bool.false_eq_true]
+  rw [hge, group_heads_nil]; rfl
 
 /-- Non-complex data is always unique and distinct; inverted `unique` yields nothing. -/
-theorem unique_distinct_scalar_partial (anc : Option Str) (v : Scalar) (a : Addr) (inv : Bool) :
+theorem unique_distinct_non_complex (anc : Option Str) (v : Scalar) (a : Addr) (inv : Bool) :
     kwUnique (.scalar anc v) a inv [] = .ok (.nodes (if inv then [] else [a])) ∧
     kwDistinct (.scalar anc v) a false [] = .ok (.nodes [a]) := ⟨rfl, rfl⟩
-
-/-- One insertion: the first group whose key equals the value (Python `==`) receives the member
-at its end; if there is none, a new group is opened at the end.  Group order never changes. -/
-theorem distinct_groups_partial (v : Scalar) (a : Addr) : ∀ (g : Groups),
-    (groupInsert g v a).map (·.1) = (if g.any (fun grp => pyEq grp.1 v) then g.map (·.1) else g.map (·.1) ++ [v])
-  | [] => rfl
-  | (k, as) :: rest => by
-    unfold groupInsert
-    cases h : pyEq k v
-    · simp only [Bool.false_eq_true, if_false, List.map_cons, List.any_cons, h, Bool.false_or]
-      rw [distinct_groups_partial v a rest]
-      split <;> simp
-    · simp [h]
 
 /-! ## Witnesses -/
 
@@ -335,5 +528,45 @@ example : kwSearch aoh [.key (.str ['l']), .idx 1] false .name [] = .ok (.name (
 example : splitParams "'a".toList = .error (.crash .valueError) := by decide +kernel
 example : kwSearch (.seq none [.scalar none (.str ['a']), .map none []]) [] false .unique []
     = .error (.crash .typeError) := by decide +kernel
+
+/-! ### same-kind collections, unique/distinct, Array-of-Hashes members -/
+
+def exF : Node := .seq none [.scalar none (.float 15 (-1)), .scalar none (.float 225 (-2)),
+  .scalar none (.float 2250 (-3)), .scalar none (.float 1 1)]
+
+/-- the hypothesis of `max_same_kind_eq_spec` is met by a list of floats (2.25 = 2.250 tie) and by a
+list of non-literal strings -/
+example : SameKind [.float 15 (-1), .float 225 (-2), .float 2250 (-3), .float 1 1] :=
+  .floats (by intro v hv; simp at hv; rcases hv with rfl | rfl | rfl | rfl <;> exact ⟨_, _, rfl⟩)
+example : SameKind [.str "ab".toList, .str "b".toList, .str "B a".toList] :=
+  .texts (by intro v hv; simp at hv; rcases hv with rfl | rfl | rfl <;> (unfold IsText; decide +kernel))
+example : kwSearch exF [] false .max [] = .ok (.nodes [[.idx 3]]) := by decide +kernel
+example : kwSearch exF [] true .min [] = .ok (.nodes [[.idx 1], [.idx 2], [.idx 3]]) := by decide +kernel
+example : Spec.extremes valGe [([.idx 0], some (.float 15 (-1))), ([.idx 1], none), ([.idx 2], some (.float 150 (-2)))]
+    = [[.idx 0], [.idx 2]] := by decide +kernel
+
+/-- `True == 1 == 1.0` under Python `==`: one group; the hypothesis `hg` of `unique_eq_spec` /
+`distinct_eq_spec` is met and the specifications say what the code yields -/
+def exU : Node := .seq none [.scalar none (.int 1), .scalar none (.bool true), .scalar none (.str ['x']),
+  .scalar none (.float 10 (-1)), .scalar none .null, .scalar none (.str ['x']), .scalar none (.int 7)]
+
+example : ∃ g, kwGroups exU [] none = .ok (some g) := ⟨_, groups_of_list none _ [] (by decide) (by decide)⟩
+example : Spec.occurringOnce (Spec.keyed exU [] none) = [[.idx 4], [.idx 6]] := by decide +kernel
+example : Spec.occurringMore (Spec.keyed exU [] none) = [[.idx 0], [.idx 1], [.idx 2], [.idx 3], [.idx 5]] := by
+  decide +kernel
+example : Spec.firstOfEach (Spec.keyed exU [] none) = [[.idx 0], [.idx 2], [.idx 4], [.idx 6]] := by decide +kernel
+example : kwSearch exU [] false .unique [] = .ok (.nodes [[.idx 4], [.idx 6]]) := by decide +kernel
+/-- inverted `unique` comes group by group — a permutation of the document order -/
+example : kwSearch exU [] true .unique [] = .ok (.nodes [[.idx 0], [.idx 1], [.idx 3], [.idx 2], [.idx 5]]) := by
+  decide +kernel
+example : kwSearch exU [] false .distinct [] = .ok (.nodes [[.idx 0], [.idx 2], [.idx 4], [.idx 6]]) := by
+  decide +kernel
+
+/-- members of an Array-of-Hashes / hash of hashes: null and missing attributes are not comparable -/
+example : candsAoh ['a'] [] [.map none [(.str ['a'], .scalar none (.int 5))],
+      .map none [(.str ['a'], .scalar none .null)], .map none [(.str ['b'], .scalar none (.int 1))]] 0
+    = .ok [([.idx 0], some (.int 5)), ([.idx 1], none), ([.idx 2], none)] := by decide +kernel
+example : Spec.keyed aoh [] (some ['a']) = [([.idx 0], .int 5), ([.idx 1], .null)] := by decide +kernel
+example : kwSearch aoh [] false .unique ['a'] = .ok (.nodes [[.idx 0], [.idx 1]]) := by decide +kernel
 
 end Ypv.C13
